@@ -168,6 +168,17 @@ pub fn guarded<R>(f: impl FnOnce() -> R) -> Result<R, PanicInfo> {
 
 // ---------------------------------------------------------------- batch runner
 
+/// Called (from a watchdog thread) when one run has not finished within the hang limit: it gets the
+/// run index and the regenerated plan, persists them and ends the process — a run that never returns
+/// cannot be joined.
+pub type HangFn = Box<dyn Fn(u64, Plan, u64) + Send + Sync>;
+pub static HANG_HANDLER: Mutex<Option<HangFn>> = Mutex::new(None);
+
+/// seconds a single run may take before it counts as hung (runs take micro- to milliseconds)
+pub fn hang_limit_s() -> u64 {
+    std::env::var("RRTK_SIM_HANG_S").ok().and_then(|s| s.parse().ok()).unwrap_or(60)
+}
+
 pub type GenFn = fn(prop: &str, tier: Tier, rng: &mut Rng, seed: u64, run: u64) -> Plan;
 pub type ExecFn = fn(plan: &Plan, ctx: &mut Ctx);
 pub type SimplifyFn = fn(plan: &Plan) -> Vec<Plan>;
@@ -216,9 +227,39 @@ pub fn run_batch(
 ) -> BatchResult {
     let next = AtomicU64::new(first);
     let aggs: Mutex<Vec<WorkerAgg>> = Mutex::new(Vec::new());
+    // watchdog state: per worker, the run in progress and when it started (ms since t0)
+    let t0 = std::time::Instant::now();
+    let nworkers = workers.max(1);
+    let slots: Vec<(AtomicU64, AtomicU64)> = (0..nworkers).map(|_| (AtomicU64::new(u64::MAX), AtomicU64::new(0))).collect();
+    let finished = AtomicU64::new(0);
+    let wid = AtomicU64::new(0);
     std::thread::scope(|s| {
-        for _ in 0..workers.max(1) {
+        if !cfg!(miri) {
             s.spawn(|| {
+                let limit_ms = hang_limit_s() * 1000;
+                while finished.load(Ordering::SeqCst) < nworkers as u64 {
+                    std::thread::sleep(std::time::Duration::from_millis(50));
+                    let now = t0.elapsed().as_millis() as u64;
+                    for (cur, since) in slots.iter() {
+                        let idx = cur.load(Ordering::SeqCst);
+                        let st = since.load(Ordering::SeqCst);
+                        if idx != u64::MAX && now.saturating_sub(st) > limit_ms && cur.load(Ordering::SeqCst) == idx {
+                            let mut rng = Rng::for_run(seed, prop, idx);
+                            let plan = gen(prop, tier, &mut rng, seed, idx);
+                            if let Some(h) = HANG_HANDLER.lock().unwrap().as_ref() {
+                                h(idx, plan, limit_ms / 1000);
+                            }
+                            eprintln!("run {} of {} did not finish within {} s", idx, prop, limit_ms / 1000);
+                            std::process::exit(3);
+                        }
+                    }
+                }
+            });
+        }
+        for _ in 0..nworkers {
+            s.spawn(|| {
+                let my = wid.fetch_add(1, Ordering::SeqCst) as usize;
+                let slot = &slots[my];
                 let mut agg = WorkerAgg {
                     counters: BTreeMap::new(),
                     cells: BTreeSet::new(),
@@ -244,11 +285,14 @@ pub fn run_batch(
                         let mut rng = Rng::for_run(seed, prop, idx);
                         let plan = gen(prop, tier, &mut rng, seed, idx);
                         let mut ctx = Ctx::new(false);
+                        slot.1.store(t0.elapsed().as_millis() as u64, Ordering::SeqCst);
+                        slot.0.store(idx, Ordering::SeqCst);
                         if let Err(p) = guarded(|| exec(&plan, &mut ctx)) {
                             // a panic outside the executors' own guards: report it against the property
                             // being exercised instead of killing the batch
                             ctx.violate(prop, "escaped_panic", &plan.world, format!("panic {:?} at {}", p.msg, p.short_loc()));
                         }
+                        slot.0.store(u64::MAX, Ordering::SeqCst);
                         agg.runs += 1;
                         for (k, v) in &ctx.counters {
                             *agg.counters.entry(k).or_insert(0) += v;
@@ -291,6 +335,7 @@ pub fn run_batch(
                     }
                 }
                 aggs.lock().unwrap().push(agg);
+                finished.fetch_add(1, Ordering::SeqCst);
             });
         }
     });
